@@ -37,18 +37,34 @@
 (* both directions occur).  The spec therefore fixes every value exactly    *)
 (* and allows both neighbours at an exact tie (NearestQ).                   *)
 (*                                                                          *)
-(* DEVIATIONS of the code from what the property needs, as constants (the   *)
-(* value TRUE/FALSE that the code follows is decided by a directed replay): *)
+(* DEVIATIONS of the code from what the property needs, as constants.  The   *)
+(* committed values in the cfg files are the REPAIRED ones; which value the *)
+(* code follows is decided in every run by the directed replay of           *)
+(* spec/SweepFee/directed (vlib/props/c18.py), and a deviating value is     *)
+(* reported as a violation (findings F12, F13):                             *)
 (*   RoundCeil  = TRUE : MaxFeeRateAllowed rounds budget/weight to NEAREST  *)
-(*                (code).  The ending rate can then cost more than the      *)
+(*                (F12).  The ending rate can then cost more than the       *)
 (*                budget (weight >= 2000): the tx at the ceiling is refused *)
 (*                by the budget check and the ceiling is never offered.     *)
 (*                FALSE: floor (every rate <= end is payable).              *)
 (*   ClampStart = FALSE: an explicit StartingFeeRate (or the relay fee used *)
 (*                for conf targets >= 1008) above the ending rate is taken  *)
-(*                as is (code): current > end, delta < 0, and the rate      *)
+(*                as is (F13): current > end, delta < 0, and the rate       *)
 (*                DEcreases to end at the next step.  TRUE: start is capped *)
 (*                at the ending rate.                                       *)
+(* With a deviating value the invariants below are stated outside the exact *)
+(* trigger of the deviation (CeilTrigger, StartTrigger - both FALSE in the  *)
+(* repaired model); the *All variants at the end are the unguarded ones.    *)
+(*                                                                          *)
+(* READING of "reaches its ceiling no later than one block before the       *)
+(* deadline": width = initial conf target - 1 and IncreaseFeeRate(ct) moves *)
+(* the position to initial - ct, so the first call with ct <= 1 (deadline - *)
+(* height <= 1) puts position >= width, where the rate IS the ending rate   *)
+(* (FFCeilAtWidth, FFCeilByDeadline).  For the published tx: once a handler *)
+(* has run with ct <= 1 the tx on offer is built at a rate >= the ceiling   *)
+(* min(floor(budget*1000/weight), MaxFeeRate) and still fits the budget     *)
+(* (PubCeilByDeadline, PubRateLeCeil) - unless the network refused a tx or  *)
+(* the inputs cannot pay the ceiling at all.                                *)
 (***************************************************************************)
 EXTENDS Integers, Sequences, FiniteSets, TLC
 
